@@ -40,12 +40,12 @@ type Res struct {
 }
 
 type callerSpec struct {
-	Behav int // 0 drain, 1 read one then cancel late, 2 never read then cancel, 3 cancel before the reply, 4 timeout, 5 SendWithReply
+	Behav int // 0 drain, 1 read one then cancel late, 2 never read then cancel, 3 cancel before the reply, 4 timeout (handler held: no reply before it), 5 SendWithReply, 6 timeout while the replies sit unread
 	Fails int
 	Err   string
 }
 
-var behavNames = []string{"drain", "read-one-cancel-late", "never-read", "cancel-before-reply", "timeout", "SendWithReply"}
+var behavNames = []string{"drain", "read-one-cancel-late", "never-read", "cancel-before-reply", "timeout", "SendWithReply", "timeout-with-unread-replies"}
 
 type cmdDelivery struct {
 	cmdID     string
@@ -132,11 +132,15 @@ func rrCase[R any](t *rapid.T, withResult bool) {
 			d := time.Duration(rapid.SampledFrom([]int{0, -1, 20, 35, 60}).Draw(t, "timeoutMs")) * time.Millisecond
 			timeout = &d
 		}
+		// the hook is optional (nil is the default): the listener has to clean up all the same
+		noHook := rapid.IntRange(0, 3).Draw(t, "withoutOnListenForReplyFinished") == 0
+		// replies of OTHER kinds of requests on the shared reply topic: their results need not decode into this caller's type
+		foreign := rapid.SliceOfN(rapid.SampledFrom([]string{`12345`, `"text"`, `[1,2]`, `{"CmdID":7,"Attempt":"x"}`, `not json`, ``}), 0, 6).Draw(t, "foreignNotifications")
 		specs := make([]callerSpec, nCallers)
 		for i := range specs {
 			b := rapid.SampledFrom([]int{0, 0, 1, 1, 2, 2, 3, 5}).Draw(t, "behaviour")
 			if timeout != nil {
-				b = rapid.SampledFrom([]int{4, 4, 3, 0}).Draw(t, "behaviourWithTimeout")
+				b = rapid.SampledFrom([]int{4, 4, 3, 0, 6, 6}).Draw(t, "behaviourWithTimeout")
 				if b == 0 {
 					b = 5
 				}
@@ -166,11 +170,11 @@ func rrCase[R any](t *rapid.T, withResult bool) {
 				w.mu.Unlock()
 				return nil
 			},
-			OnListenForReplyFinished: func(ctx context.Context, p requestreply.PubSubBackendSubscribeParams) {
+			OnListenForReplyFinished: map[bool]func(ctx context.Context, p requestreply.PubSubBackendSubscribeParams){false: func(ctx context.Context, p requestreply.PubSubBackendSubscribeParams) {
 				w.mu.Lock()
 				w.finished[p.Command.(*Cmd).ID]++
 				w.mu.Unlock()
-			},
+			}}[noHook],
 		}, requestreply.BackendPubsubJSONMarshaler[R]{})
 		if err != nil {
 			t.Fatalf("NewPubSubBackend: %v", err)
@@ -315,6 +319,9 @@ func rrCase[R any](t *rapid.T, withResult bool) {
 			return false
 		}
 		finishedOnce := func(id string) bool {
+			if noHook {
+				return true
+			}
 			return lib.WaitUntil(lib.Live, func() bool { w.mu.Lock(); defer w.mu.Unlock(); return w.finished[id] >= 1 })
 		}
 		drainUntilClosed := func(id string, ch <-chan requestreply.Reply[R], s callerSpec) (n int, closed bool) {
@@ -333,6 +340,18 @@ func rrCase[R any](t *rapid.T, withResult bool) {
 				}
 			}
 		}
+		foreignDone := make(chan struct{})
+		go func() {
+			defer close(foreignDone)
+			for k, payload := range foreign {
+				time.Sleep(time.Duration(k%3) * 300 * time.Microsecond)
+				m := message.NewMessage(fmt.Sprintf("foreign-%d", k), []byte(payload))
+				m.Metadata[requestreply.OperationIDMetadataKey] = fmt.Sprintf("foreign-operation-%d", k)
+				m.Metadata[requestreply.HasErrorMetadataKey] = "0"
+				m.Metadata["cmd"] = "a foreign request"
+				gc.Publish("reply", m)
+			}
+		}()
 		var wg sync.WaitGroup
 		for i, s := range specs {
 			wg.Add(1)
@@ -404,8 +423,25 @@ func rrCase[R any](t *rapid.T, withResult bool) {
 					}
 				case 3:
 					cancel()
+				case 6:
+					// the handler answers at once (several replies after Nacks), nobody reads them, then the timeout passes
+					if *timeout > 0 {
+						time.Sleep(*timeout)
+					}
+					time.Sleep(5 * time.Millisecond)
+					if !finishedOnce(id) {
+						bad("listener: OnListenForReplyFinished never ran for %s after the timeout passed (caller not reading; up to %d replies were produced meanwhile)", id, want)
+					}
 				case 4:
-					// wait for the configured timeout
+					// wait for the configured timeout WITHOUT reading: replies that arrived meanwhile sit unread, the
+					// listener has to terminate all the same (draining below would free a listener stuck on the channel)
+					if *timeout > 0 {
+						time.Sleep(*timeout)
+					}
+					time.Sleep(5 * time.Millisecond)
+					if !finishedOnce(id) {
+						bad("listener: OnListenForReplyFinished never ran for %s after the timeout passed (caller not reading; %d replies were produced)", id, want)
+					}
 				}
 				n, closed := drainUntilClosed(id, ch, s)
 				got += n
@@ -421,7 +457,7 @@ func rrCase[R any](t *rapid.T, withResult bool) {
 			}(i, s)
 		}
 		callersDone := make(chan struct{})
-		go func() { wg.Wait(); close(callersDone) }()
+		go func() { wg.Wait(); <-foreignDone; close(callersDone) }()
 		select {
 		case <-callersDone:
 		case <-time.After(6 * lib.Live):
@@ -496,7 +532,7 @@ func rrCase[R any](t *rapid.T, withResult bool) {
 				bad("listener: OnListenForReplyFinished ran %d times for %s", n, id)
 			}
 		}
-		if len(w.finished) != nCallers {
+		if len(w.finished) != nCallers && !noHook {
 			bad("listener: OnListenForReplyFinished ran for %d of %d requests", len(w.finished), nCallers)
 		}
 		w.mu.Unlock()
